@@ -50,6 +50,10 @@ func runC16(c *an.Ctx) {
 	c.Inf("C16-R9", "hand-off sweep", token.NoPos, "%d hand-offs examined", sharedRetainedArgs(c, "C16-R9", "dnssvc.", "cmd."))
 	c16Wiring(c)
 	// ---- R7: every query attributed to a profile is recorded for billing, whatever its logging settings
+	c.Floor("C16-R11", 2)
+	// ---- R11: a request is served (and billed) once; the country and ASN billed are those of the client's own address
+	c.Borrow("C16-R11", runC09, func(o an.Obligation) bool { return o.Rule == "C09-R1" })
+	c.Borrow("C16-R11", runC05, func(o an.Obligation) bool { return o.Rule == "C05-R5" && strings.Contains(o.Key, ").location") })
 	c.Floor("C16-R7", 1)
 	c.Borrow("C16-R7", runC15, func(o an.Obligation) bool { return o.Rule == "C15-R1" && strings.Contains(o.Key, "recordQueryInfo") })
 	c.Floor("C16-R1", 6)
